@@ -196,6 +196,8 @@ type Membership struct {
 	OnRequest func(ctx context.Context, h uint64) error
 	// KeyedByRefTime: the committee is looked up by the previous block's reference time (+1) instead of the height argument.
 	KeyedByRefTime bool
+	// OnProofRequest (optional) may fail RequestCommitteeForBlockProof.
+	OnProofRequest func(ctx context.Context, h uint64) error
 }
 
 func (m *Membership) MyMemberId() primitives.MemberId { return primitives.MemberId(m.Me) }
@@ -213,7 +215,17 @@ func (m *Membership) RequestOrderedCommittee(ctx context.Context, h primitives.B
 }
 
 func (m *Membership) RequestCommitteeForBlockProof(ctx context.Context, h primitives.BlockHeight, t primitives.TimestampSeconds) ([]interfaces.CommitteeMember, error) {
-	return copyCommittee(m.Committee(m.byRefTime(uint64(h), t))), nil
+	if m.OnProofRequest != nil {
+		if err := m.OnProofRequest(ctx, uint64(h)); err != nil {
+			return nil, err
+		}
+	}
+	// the committee for a block proof is a set: it is handed out in another order than the ordered committee (reversed)
+	c := copyCommittee(m.Committee(m.byRefTime(uint64(h), t)))
+	for a, b := 0, len(c)-1; a < b; a, b = a+1, b-1 {
+		c[a], c[b] = c[b], c[a]
+	}
+	return c, nil
 }
 
 // byRefTime: the committee contract is keyed by the reference time of the *previous* block (the harness's
